@@ -14,9 +14,11 @@ package main
 
 import (
 	"encoding/binary"
+	"encoding/json"
 	"errors"
 	"fmt"
 	"hash/fnv"
+	"math/rand"
 	"os"
 	"runtime"
 	"sort"
@@ -392,9 +394,7 @@ func pow(b, e int) int {
 	return r
 }
 
-func mergeStats(c *vf.Ctx, mu *sync.Mutex, st *stats) {
-	mu.Lock()
-	defer mu.Unlock()
+func mergeStats(c *vf.Ctx, st *stats) {
 	c.Count("evaluations", st.runs)
 	c.Count("crash_runs", st.crashRuns)
 	c.Count("multi_crash_runs", st.doubleCrashRuns)
@@ -410,22 +410,27 @@ func mergeStats(c *vf.Ctx, mu *sync.Mutex, st *stats) {
 		c.Distinct("crash_site_kinds", k)
 	}
 	for _, v := range st.viols {
-		pendingViols = append(pendingViols, pendingViol{v.v, v.cs})
+		// sent as a record: the parent sorts them (shortest reproducer first) before reporting
+		c.Emit("viol", pendingViol{v.v.fp, v.v.what, v.cs})
 	}
 }
 
 // violations of the sequential part are reported shortest history first, so that the
 // replay files kept per fingerprint are the minimal reproducers.
 type pendingViol struct {
-	v  violation
-	cs seqCase
+	FP   string  `json:"fp"`
+	What string  `json:"what"`
+	Case seqCase `json:"case"`
 }
 
-var pendingViols []pendingViol
+var (
+	pendingMu    sync.Mutex
+	pendingViols []pendingViol
+)
 
 func flushViols(c *vf.Ctx) {
 	sort.SliceStable(pendingViols, func(a, b int) bool {
-		x, y := pendingViols[a].cs, pendingViols[b].cs
+		x, y := pendingViols[a].Case, pendingViols[b].Case
 		if lx, ly := len(x.Ops)+2*len(x.Crashes), len(y.Ops)+2*len(y.Crashes); lx != ly {
 			return lx < ly
 		}
@@ -435,21 +440,35 @@ func flushViols(c *vf.Ctx) {
 		return strings.Join(x.Ops, "") < strings.Join(y.Ops, "")
 	})
 	for _, p := range pendingViols {
-		c.Violation(p.v.fp, p.v.what, p.cs)
+		c.Violation(p.FP, p.What, p.Case)
 	}
 	pendingViols = nil
 }
 
-func sequentialPart(c *vf.Ctx) {
-	workers := runtime.NumCPU()
-	var mu sync.Mutex
-	exhLen := c.Pick(6, 7) // all histories up to this length, every single crash point
-	dblLen := c.Pick(6, 7) // … and every pair of faults (incl. store error + later crash) up to this length
-	triLen := c.Pick(4, 6) // … and every triple up to this length
-	type job struct{ i0, length, lo, hi int }
-	var jobs []job
-	for _, i0 := range intervals {
-		for l := 1; l <= exhLen; l++ {
+// The sequential exploration runs the library under a panic-based crash model, which
+// can make the library die with a process-fatal error (e.g. "unlock of unlocked mutex"
+// while the injected panic unwinds through a deferred Unlock). It therefore runs in
+// child processes: the deterministic job list is dealt round-robin to seqChildren
+// single-threaded children, each history is announced with c.Mark before it runs, and
+// a child that dies is restarted after the marked history.
+
+const seqChildren = 16
+
+type seqJob struct {
+	kind       string // exh | long
+	i0, length int
+	lo, hi     int // exh: history indices; long: sample indices
+}
+
+func seqBounds(c *vf.Ctx) (exhLen, dblLen, triLen int) {
+	return c.Pick(6, 7), c.Pick(6, 7), c.Pick(4, 6)
+}
+
+func seqJobs(c *vf.Ctx) []seqJob {
+	exhLen, _, _ := seqBounds(c)
+	var jobs []seqJob
+	for l := 1; l <= exhLen; l++ {
+		for _, i0 := range intervals {
 			n := pow(len(alphabet), l)
 			step := 2000
 			for lo := 0; lo < n; lo += step {
@@ -457,98 +476,173 @@ func sequentialPart(c *vf.Ctx) {
 				if hi > n {
 					hi = n
 				}
-				jobs = append(jobs, job{i0, l, lo, hi})
+				jobs = append(jobs, seqJob{"exh", i0, l, lo, hi})
 			}
 		}
 	}
-	vf.Parallel(len(jobs), workers, func(j int) {
-		jb := jobs[j]
-		st := &stats{kinds: map[string]int{}}
-		maxC := 1
-		if jb.length <= dblLen {
-			maxC = 2
-		}
-		if jb.length <= triLen {
-			maxC = 3
-		}
-		for idx := jb.lo; idx < jb.hi; idx++ {
-			cs := seqCase{Interval0: jb.i0, Ops: decodeHistory(jb.length, idx)}
-			explore(c, st, cs, maxC)
-		}
-		st2 := jb.hi - jb.lo
-		mu.Lock()
-		c.Count("histories", st2)
-		c.Count("histories_exhaustive", st2)
-		mu.Unlock()
-		mergeStats(c, &mu, st)
-	})
-	c.Extra("exhaustive_bound", fmt.Sprintf("all histories over {Next, Release, Restart(1|2|3|7)} of length <= %d for every initial interval in {1,2,3,7}, each fault-free and with a crash before / a crash after / a store error at every store call; every pair of crash points for length <= %d, every triple for length <= %d", exhLen, dblLen, triLen))
-
-	// sampled longer histories (length 7..9), up to 3 crashes
 	nSample := c.Pick(3000, 60000)
-	chunk := 250
-	nChunks := (nSample + chunk - 1) / chunk
-	vf.Parallel(nChunks, workers, func(w int) {
-		rng := c.Rand(fmt.Sprintf("long/%d", w))
-		st := &stats{kinds: map[string]int{}}
-		for k := 0; k < chunk && w*chunk+k < nSample; k++ {
-			l := exhLen + 1 + rng.Intn(9-exhLen)
-			ops := make([]string, l)
-			for i := range ops {
-				// bias to Next so that leases are actually consumed
-				switch r := rng.Intn(10); {
-				case r < 5:
-					ops[i] = "N"
-				case r < 7:
-					ops[i] = "R"
-				default:
-					ops[i] = alphabet[2+rng.Intn(4)]
-				}
-			}
-			cs := seqCase{Interval0: intervals[rng.Intn(4)], Ops: ops}
-			// base run + every single crash; then a few random multi-crash plans
-			explore(c, st, cs, 1)
-			base := runSeq(cs)
-			for t := 0; t < 6 && base.sites >= 2; t++ {
-				nc := 2 + rng.Intn(2)
-				sites := map[int]bool{}
-				for len(sites) < nc && len(sites) < base.sites {
-					sites[1+rng.Intn(base.sites+2)] = true
-				}
-				var cr []crashAt
-				for s := range sites {
-					f := crashAt{Site: s, After: rng.Intn(2) == 0}
-					if rng.Intn(3) == 0 {
-						f = crashAt{Site: s, Fail: true}
-					}
-					cr = append(cr, f)
-				}
-				sort.Slice(cr, func(a, b int) bool { return cr[a].Site < cr[b].Site })
-				mc := cs
-				mc.Crashes = cr
-				explore(c, st, mc, 0)
-			}
+	for lo := 0; lo < nSample; lo += 250 {
+		hi := lo + 250
+		if hi > nSample {
+			hi = nSample
 		}
-		mu.Lock()
-		c.Count("histories", chunk)
-		c.Count("histories_sampled_long", chunk)
-		mu.Unlock()
-		mergeStats(c, &mu, st)
-	})
-
-	// named scenarios from the property text (also covered by the enumeration; kept as samples)
-	for _, cs := range []seqCase{
-		{Interval0: 3, Ops: []string{"N", "N", "S3", "R", "S3", "N"}},
-		{Interval0: 3, Ops: []string{"N", "R", "R", "N"}},
-		{Interval0: 2, Ops: []string{"N", "R", "N", "N", "N"}},
-		{Interval0: 2, Ops: []string{"N", "N", "N"}, Crashes: []crashAt{{Site: 4}}},
-		{Interval0: 2, Ops: []string{"N", "N", "N"}, Crashes: []crashAt{{Site: 4, After: true}}},
-		{Interval0: 2, Ops: []string{"N", "N", "S2", "N"}, Crashes: []crashAt{{Site: 2, Fail: true}}},
-	} {
-		r := runSeq(cs)
-		cs.Trace = r.trace
-		c.Sample(cs)
+		jobs = append(jobs, seqJob{kind: "long", lo: lo, hi: hi})
 	}
+	return jobs
+}
+
+func longCase(c *vf.Ctx, idx int) (seqCase, *rand.Rand) {
+	exhLen, _, _ := seqBounds(c)
+	rng := c.Rand(fmt.Sprintf("long/%d", idx))
+	l := exhLen + 1 + rng.Intn(9-exhLen)
+	ops := make([]string, l)
+	for i := range ops {
+		// bias to Next so that leases are actually consumed
+		switch r := rng.Intn(10); {
+		case r < 5:
+			ops[i] = "N"
+		case r < 7:
+			ops[i] = "R"
+		default:
+			ops[i] = alphabet[2+rng.Intn(4)]
+		}
+	}
+	return seqCase{Interval0: intervals[rng.Intn(4)], Ops: ops}, rng
+}
+
+// seqChild: args = [k, resumeJob, resumeIdx]; runs jobs j with j % seqChildren == k,
+// skipping everything up to and including (resumeJob, resumeIdx).
+func seqChild(c *vf.Ctx) {
+	k, _ := strconv.Atoi(c.ChildArgs[0])
+	resumeJ, _ := strconv.Atoi(c.ChildArgs[1])
+	resumeI, _ := strconv.Atoi(c.ChildArgs[2])
+	_, dblLen, triLen := seqBounds(c)
+	jobs := seqJobs(c)
+	if k == 0 && resumeJ < 0 {
+		// named scenarios from the property text (also covered by the enumeration; kept as samples)
+		for _, cs := range []seqCase{
+			{Interval0: 3, Ops: []string{"N", "N", "S3", "R", "S3", "N"}},
+			{Interval0: 3, Ops: []string{"N", "R", "R", "N"}},
+			{Interval0: 2, Ops: []string{"N", "R", "N", "N", "N"}},
+			{Interval0: 2, Ops: []string{"N", "N", "N"}, Crashes: []crashAt{{Site: 4}}},
+			{Interval0: 2, Ops: []string{"N", "N", "N"}, Crashes: []crashAt{{Site: 4, After: true}}},
+			{Interval0: 2, Ops: []string{"N", "N", "S2", "N"}, Crashes: []crashAt{{Site: 2, Fail: true}}},
+		} {
+			c.Mark(fmt.Sprintf("-1:0 sample interval0=%d ops=%v faults=%v", cs.Interval0, cs.Ops, cs.Crashes))
+			r := runSeq(cs)
+			cs.Trace = r.trace
+			c.Sample(cs)
+		}
+	}
+	for j, jb := range jobs {
+		if j%seqChildren != k || j < resumeJ {
+			continue
+		}
+		st := &stats{kinds: map[string]int{}}
+		done := 0
+		for idx := jb.lo; idx < jb.hi; idx++ {
+			if j == resumeJ && idx <= resumeI {
+				continue
+			}
+			if jb.kind == "exh" {
+				cs := seqCase{Interval0: jb.i0, Ops: decodeHistory(jb.length, idx)}
+				c.Mark(fmt.Sprintf("%d:%d interval0=%d ops=%s", j, idx, cs.Interval0, strings.Join(cs.Ops, ",")))
+				maxC := 1
+				if jb.length <= dblLen {
+					maxC = 2
+				}
+				if jb.length <= triLen {
+					maxC = 3
+				}
+				explore(c, st, cs, maxC)
+			} else {
+				cs, rng := longCase(c, idx)
+				c.Mark(fmt.Sprintf("%d:%d interval0=%d ops=%s (sampled)", j, idx, cs.Interval0, strings.Join(cs.Ops, ",")))
+				// base run + every single fault; then a few random multi-fault plans
+				explore(c, st, cs, 1)
+				base := runSeq(cs)
+				for t := 0; t < 6 && base.sites >= 2; t++ {
+					nc := 2 + rng.Intn(2)
+					sites := map[int]bool{}
+					for len(sites) < nc && len(sites) < base.sites {
+						sites[1+rng.Intn(base.sites+2)] = true
+					}
+					var cr []crashAt
+					for s := range sites {
+						f := crashAt{Site: s, After: rng.Intn(2) == 0}
+						if rng.Intn(3) == 0 {
+							f = crashAt{Site: s, Fail: true}
+						}
+						cr = append(cr, f)
+					}
+					sort.Slice(cr, func(a, b int) bool { return cr[a].Site < cr[b].Site })
+					mc := cs
+					mc.Crashes = cr
+					explore(c, st, mc, 0)
+				}
+			}
+			done++
+		}
+		c.Count("histories", done)
+		if jb.kind == "exh" {
+			c.Count("histories_exhaustive", done)
+		} else {
+			c.Count("histories_sampled_long", done)
+		}
+		mergeStats(c, st)
+		c.FlushStats() // what was observed so far survives a later death of this child
+	}
+}
+
+func sequentialPart(c *vf.Ctx) {
+	exhLen, dblLen, triLen := seqBounds(c)
+	c.Extra("exhaustive_bound", fmt.Sprintf("all histories over {Next, Release, Restart(1|2|3|7)} of length <= %d for every initial interval in {1,2,3,7}, each fault-free and with a crash before / a crash after / a store error at every store call; every pair of faults for length <= %d, every triple for length <= %d", exhLen, dblLen, triLen))
+	vf.Parallel(seqChildren, runtime.NumCPU(), func(k int) {
+		resumeJ, resumeI := -1, -1
+		for deaths := 0; ; {
+			res := c.RunChild(vf.ChildOpts{Name: "seq", Args: []string{strconv.Itoa(k), strconv.Itoa(resumeJ), strconv.Itoa(resumeI)}, Timeout: 15 * time.Minute})
+			pendingMu.Lock()
+			for _, r := range res.Records {
+				if r.Kind == "viol" {
+					var p pendingViol
+					if json.Unmarshal(r.V, &p) == nil {
+						pendingViols = append(pendingViols, p)
+					}
+				}
+			}
+			pendingMu.Unlock()
+			if res.TimedOut {
+				c.Inconclusive(fmt.Sprintf("sequential chunk %d: watchdog fired at history %q", k, res.LastMark))
+				return
+			}
+			if res.ExitCode == 0 {
+				return
+			}
+			// The child died. Under the panic-based crash model a fatal runtime error is not by
+			// itself a refutation of C07 (no number was observed twice): note it, mark the chunk
+			// inconclusive and go on after the history that was running.
+			deaths++
+			c.Count("sequential_child_deaths", 1)
+			fatal := res.Fatal
+			if fatal == "" {
+				fatal = fmt.Sprintf("exit code %d", res.ExitCode)
+			}
+			c.Note(fmt.Sprintf("sequential chunk %d: child process died (%s) while running history %q (stderr: %s)", k, fatal, res.LastMark, res.StderrPath))
+			if deaths == 1 {
+				c.Inconclusive(fmt.Sprintf("sequential chunk %d: child died with %q in history %q; histories of this chunk are not fully explored", k, fatal, res.LastMark))
+			}
+			var j, i int
+			if n, _ := fmt.Sscanf(res.LastMark, "%d:%d", &j, &i); n != 2 || deaths >= 3 {
+				c.Count("sequential_chunks_abandoned", 1)
+				return
+			}
+			if j < 0 { // died in the named samples: continue with the job list
+				j, i = 0, -1
+			}
+			resumeJ, resumeI = j, i
+		}
+	})
+	c.Count("sequential_children", seqChildren)
 }
 
 // ---------------------------------------------------------------- concurrent part
@@ -588,7 +682,7 @@ func concurrentChild(c *vf.Ctx) {
 		seen := map[uint64]struct{}{}
 		desc := fmt.Sprintf("round %d goroutines %d", r, g)
 		for gen := 0; gen < gens; gen++ {
-			interval := intervals[rng.Intn(4)]
+			interval := []int{1, 1, 2, 2, 3, 3, 7}[rng.Intn(7)] // small: a renewal every 1-3 calls
 			seq, _ := kvstore.NewSequence(st, seqKey, uint64(interval))
 			evs := make([][]nextEv, g)
 			var wg sync.WaitGroup
@@ -698,18 +792,39 @@ func child(c *vf.Ctx) {
 	switch c.Child {
 	case "conc":
 		concurrentChild(c)
+	case "seq":
+		seqChild(c)
+	case "replay":
+		c.Replay = c.ChildArgs[0]
+		replayChild(c)
 	}
 }
 
+// replay re-executes a recorded sequential case in a child process (the case may kill
+// the process under the crash model).
 func replay(c *vf.Ctx) {
 	var cs seqCase
 	if err := c.LoadReplay(&cs); err != nil || cs.Interval0 == 0 {
 		fmt.Fprintln(os.Stderr, "replay: not a sequential C07 case (concurrent findings are re-run by seed):", err)
 		os.Exit(3)
 	}
+	res := c.RunChild(vf.ChildOpts{Name: "replay", Args: []string{c.Replay}, Timeout: 2 * time.Minute})
+	for _, l := range res.Lines {
+		fmt.Fprintln(os.Stderr, l)
+	}
+	if res.TimedOut || res.ExitCode != 0 {
+		c.Inconclusive(fmt.Sprintf("replay child died (%s, exit code %d); stderr: %s", res.Fatal, res.ExitCode, res.StderrPath))
+	}
+}
+
+func replayChild(c *vf.Ctx) {
+	var cs seqCase
+	if err := c.LoadReplay(&cs); err != nil {
+		os.Exit(3)
+	}
 	r := runSeq(cs)
 	c.Count("evaluations", 1)
-	fmt.Fprintf(os.Stderr, "replayed trace: %s\n", r.trace)
+	fmt.Printf("replayed trace: %s\n", r.trace)
 	if r.viol != nil {
 		cs.Trace = r.trace
 		c.Violation(r.viol.fp, r.viol.what, cs)
